@@ -369,6 +369,21 @@ def protocol(chk, prog, cls, methods):
                     chk.finding("PROTOCOL.rows", batch.module.rel, batch.qname, "row store %s" % stmt_text(s)[:70], why, line=s.lineno)
                 else:
                     chk.record("PROTOCOL.rows", site, "row produced by the streaming / per-sample method")
+    # ... and no block of rows is filled at once by other code: `Q[1:] = self._vectorised(...)` is a second implementation as well
+    outputs = {ast.unparse(s.targets[0].value) for lp in ast.walk(batch.node) if isinstance(lp, ast.For) for s in ast.walk(lp)
+               if isinstance(s, ast.Assign) and isinstance(s.targets[0], ast.Subscript) and isinstance(s.targets[0].value, ast.Name)} | {o for o in OUTPUTS}
+    for s in ast.walk(batch.node):
+        if isinstance(s, ast.Assign) and len(s.targets) == 1 and isinstance(s.targets[0], ast.Subscript) and ast.unparse(s.targets[0].value) in outputs:
+            tg = s.targets[0]
+            first = tg.slice.elts[0] if isinstance(tg.slice, ast.Tuple) else tg.slice
+            if isinstance(first, ast.Slice) and not any(isinstance(lp, ast.For) and any(x is s for x in ast.walk(lp)) for lp in ast.walk(batch.node)):
+                v = s.value
+                if isinstance(v, ast.Call) and isinstance(v.func, ast.Attribute) and isinstance(v.func.value, ast.Name) and v.func.value.id == "self" and v.func.attr in methods:
+                    continue
+                why = "rows `%s` of the batch output are filled at once by `%s`, not by the streaming / per-sample method (%s): the batch route runs different code from the " \
+                      "sample-by-sample route" % (ast.unparse(tg), ast.unparse(v)[:60], "/".join(methods))
+                chk.record("PROTOCOL.rows", "%s::%s" % (batch.ref, stmt_text(s)[:60]), "output rows are produced by the streaming method", verdict="VIOLATION", detail=why)
+                chk.finding("PROTOCOL.rows", batch.module.rel, batch.qname, "block store %s" % stmt_text(s)[:70], why, line=s.lineno)
     # carried state is initialised by the constructor, never by the batch routine: a data-less instance must stream from the same state
     stream_reads = set()
     for mname in methods:
